@@ -87,7 +87,7 @@ CATALOGUE: Dict[str, Tuple[str, str]] = {
     "tail_then_dedent": ("none", "def tail(f):\n    if f:\n        print(1)\n        print(3)\n    else:\n        print(2)\n        print(3)\nprint(tail(1))"),
     "format_errors_const": ("none", "try:\n    if '{} {}'.format('a'):\n        print(1)\nexcept IndexError:\n    print('index')"),
     "dup_functions_semicolon": ("none", "def twin_a(v):\n    return v + 1\n\n\ndef twin_b(v):\n    return v + 1\n\n\ndef report(width, height):\n    area = width * height;\n    text = 'a;  b'\n    return area, text\n\n\nprint(twin_a(1), twin_b(1), report(2, 3))"),
-    "dup_functions_below_linesep": ("none", "TEXT = 'a\u2028b'  # a line separator inside a literal\n\n\ndef twin_a(v):\n    return v + 1\n\n\ndef twin_b(v):\n    return v + 1\n\n\nprint(twin_a(1), twin_b(1), len(TEXT))"),
+    "dup_functions_below_linesep": ("none", "TEXT = 'ab'  # a line separator \u2028 inside a comment\n\n\ndef twin_a(v):\n    return v + 1\n\n\ndef twin_b(v):\n    return v + 1\n\n\nprint(twin_a(1), twin_b(1), len(TEXT))"),
     "dup_functions_below_formfeed": ("none", "x = 1\n\x0c\n# page two \x1c\n\n\ndef twin_a(v):\n    return v + x\n\n\ndef twin_b(v):\n    return v + x\n\n\nprint(twin_a(1), twin_b(1))"),
     "dup_import_in_handler": ("none", "import json\ntry:\n    import simplejson as json\nexcept ImportError:\n    import json\nprint(json.dumps(1))"),
     "dup_import_in_case": ("none", "import json\nmatch len('ab'):\n    case 2:\n        import json\n    case _:\n        print(0)\nprint(json.dumps(1))"),
